@@ -263,10 +263,10 @@ def needPosC (leading n : Nat) (trim : Bool) (exact1 exact : Nat) : Nat :=
     (if trim then leading else max (leading + 2) (needPad (leading + 2) (leading + 1) exact1))
   else max (n + 1) (needPad (n + 1) n exact)
 
-theorem posC_panic_iff (ds : List Nat) (e : Int) (o : WOpts) (b : WBuf) :
-    posC ds e o b = .panic ↔
+theorem posCLayout_panic_iff (ds : List Nat) (e : Int) (o : WOpts) (b : WBuf) :
+    posCLayout ds e o b = .panic ↔
       b.len < needPosC (e.toNat + 1) ds.length o.trim (minExactDigits (e.toNat + 1 + 1) o) (minExactDigits ds.length o) := by
-  unfold posC needPosC
+  unfold posCLayout needPosC
   dsimp only
   generalize e.toNat + 1 = leading
   generalize minExactDigits (leading + 1) o = ex1
@@ -284,12 +284,12 @@ theorem posC_panic_iff (ds : List Nat) (e : Int) (o : WOpts) (b : WBuf) :
     · panic_tac [hc, hmin, List.length_take, List.length_drop]
     · panic_tac [hc, hmin, List.length_take, List.length_drop]
 
-theorem posC_ok_facts (ds : List Nat) (e : Int) (o : WOpts) (b : WBuf) (r : Out) (h : posC ds e o b = .ok r) :
+theorem posCLayout_ok_facts (ds : List Nat) (e : Int) (o : WOpts) (b : WBuf) (r : Out) (h : posCLayout ds e o b = .ok r) :
     r.buf.len = b.len ∧
     r.cursor ≤ needPosC (e.toNat + 1) ds.length o.trim (minExactDigits (e.toNat + 1 + 1) o) (minExactDigits ds.length o) ∧
     r.buf.hi ≤ max b.hi
       (needPosC (e.toNat + 1) ds.length o.trim (minExactDigits (e.toNat + 1 + 1) o) (minExactDigits ds.length o)) := by
-  unfold posC at h
+  unfold posCLayout at h
   unfold needPosC
   dsimp only at h
   generalize e.toNat + 1 = leading at h ⊢
@@ -327,10 +327,10 @@ theorem bodyCur_ge (fmt : Format) (n : Nat) (o : WOpts) : 1 ≤ bodyCur fmt n o 
   unfold bodyCur; repeat' split
   all_goals omega
 
-theorem sciC_panic_iff (fmt : Format) (feats : Features) (ds : List Nat) (e : Int) (o : WOpts) (b : WBuf) :
-    sciC fmt feats ds e o b = .panic ↔
+theorem sciCLayout_panic_iff (fmt : Format) (feats : Features) (ds : List Nat) (e : Int) (o : WOpts) (b : WBuf) :
+    sciCLayout fmt feats ds e o b = .panic ↔
       b.len < needSciC fmt feats ds.length o (expSign fmt feats e).length (numeral fmt.exponentRadix e.natAbs).length := by
-  unfold sciC needSciC
+  unfold sciCLayout needSciC
   have hge := needExp_ge feats fmt.exponentRadix (bodyCur fmt ds.length o) (expSign fmt feats e).length
     (numeral fmt.exponentRadix e.natAbs).length
   have hbc := bodyCur_ge fmt ds.length o
@@ -369,13 +369,13 @@ theorem sciC_panic_iff (fmt : Format) (feats : Features) (ds : List Nat) (e : In
       · left; exact h1
     · left; exact h0
 
-theorem sciC_ok_facts (fmt : Format) (feats : Features) (ds : List Nat) (e : Int) (o : WOpts) (b : WBuf) (r : Out)
-    (h : sciC fmt feats ds e o b = .ok r) :
+theorem sciCLayout_ok_facts (fmt : Format) (feats : Features) (ds : List Nat) (e : Int) (o : WOpts) (b : WBuf) (r : Out)
+    (h : sciCLayout fmt feats ds e o b = .ok r) :
     r.buf.len = b.len ∧
     r.cursor ≤ needSciC fmt feats ds.length o (expSign fmt feats e).length (numeral fmt.exponentRadix e.natAbs).length ∧
     r.buf.hi ≤ max b.hi
       (needSciC fmt feats ds.length o (expSign fmt feats e).length (numeral fmt.exponentRadix e.natAbs).length) := by
-  unfold sciC at h
+  unfold sciCLayout at h
   unfold needSciC
   simp only [bind_ok_iff, set_ok_iff, ex_elim] at h
   obtain ⟨_, _, r1, h1, h2⟩ := h
